@@ -179,6 +179,14 @@ pub fn c01(cfg: &Cfg, rep: &mut Report) {
         let case_seed = cfg.case_seed(1_000_000 + i);
         c01_large(cfg, rep, case_seed);
     }
+    // tall instances (64+ statements, diagrams of 64+ levels) with the strong Kleene oracle
+    let tall = cfg.get_usize("tall", (large / 3).max(if large > 0 { 2 } else { 0 }));
+    for i in 0..tall {
+        if rep.too_many() {
+            break;
+        }
+        c01_tall(cfg, rep, cfg.case_seed(8_000_000 + i));
+    }
 }
 
 pub fn c01_case(cfg: &Cfg, rep: &mut Report, case_seed: u64, nm: usize) {
@@ -254,21 +262,41 @@ pub fn large_case(case_seed: u64) -> (GenAdf, String, BigSem) {
 fn c01_large(cfg: &Cfg, rep: &mut Report, case_seed: u64) {
     let (g, text, sem) = large_case(case_seed);
     let (want, rounds) = sem.grounded_rounds();
-    rep.evaluations += 1;
     rep.count("large_cases", 1);
     rep.max("max_rounds_large", rounds as u64);
+    c01_big_check(cfg, rep, case_seed, &g, &text, &want, false);
+}
+
+/// tall frameworks (64 to 90 statements, a condition chained over nearly all others): grounded interpretation
+/// from the strong Kleene fixpoint (exact, every condition is read-once), on every back-end and variable order
+fn c01_tall(cfg: &Cfg, rep: &mut Report, case_seed: u64) {
+    let mut rng = Rng::new(case_seed ^ 0x7A11);
+    let g = oracle::gen::gen_tall(&mut rng);
+    let r = g.render(&mut rng, true);
+    let want = oracle::gen::tall_grounded(&g);
+    rep.count("tall_cases", 1);
+    c01_big_check(cfg, rep, case_seed, &g, &r.text, &want, true);
+}
+
+fn c01_big_check(cfg: &Cfg, rep: &mut Report, case_seed: u64, g: &GenAdf, text: &str, want: &[Val], tall: bool) {
+    let text = text.to_string();
+    let want = want.to_vec();
+    rep.evaluations += 1;
     rep.max("max_statements", g.n as u64);
     rep.nontrivial.insert(hash_str(&g.structure_key()));
-    let replay = json!({"property": cfg.prop, "case_seed": case_seed.to_string(), "large": true, "adf": text});
+    let replay = json!({"property": cfg.prop, "case_seed": case_seed.to_string(), "large": true, "tall": tall, "adf": text});
     for sort in SORTS {
         let o = match build(&text, sort, true) {
             Ok(o) => o,
             Err(e) => {
+                if tall && tall_abort_is_known(cfg, rep, &e.describe(), g.n, replay.clone()) {
+                    return;
+                }
                 rep.violation("build-failed-large", e.describe(), replay.clone());
                 continue;
             }
         };
-        let Some(perm) = perm_of(&o.names, &g) else {
+        let Some(perm) = perm_of(&o.names, g) else {
             rep.violation("names-not-a-permutation", "large".into(), replay.clone());
             continue;
         };
